@@ -314,7 +314,9 @@ def run_case(spec):
         return next(i for i, x in enumerate(s) if x in ("CYS", "CYX", "CYM"))
 
     sa, sb = seq(posA), seq(posB)
-    pepA, pepB = S.peptide(sa, rng), S.peptide(sb, rng)
+    # some inputs already carry hydrogens, the thiol HG included (both partners of a bridge must lose it)
+    hyd = rng.choice(["none", "none", "all"])
+    pepA, pepB = S.peptide(sa, rng, hydrogens=hyd), S.peptide(sb, rng, hydrogens=hyd)
     place(pepA, cpos(sa), pepB, cpos(sb), d, rng)
     decoy = rng.choice(["none", "none", "outside", "inside"])
     chains = [pepA, pepB]
